@@ -893,6 +893,15 @@ pub mod fam {
                     into.push(text("<"));
                     into.push(print_var(&name));
                     into.push(text(">"));
+                    // the block form also assigns like `set` / `set_global` do: by position, a tiny
+                    // block (constant body, so that nothing grows) assigns `a` globally or locally
+                    // right where the section closes (seeded change C03-3: `{% set_global a %}…
+                    // {% endset %}` inside a loop compiled as a local set)
+                    match i % 3 {
+                        1 => into.push(Stmt::SetBlock { name: "a".into(), global: true, filters: vec![], body: vec![text(&format!("gb{i}"))] }),
+                        2 => into.push(Stmt::SetBlock { name: "a".into(), global: false, filters: vec![], body: vec![text(&format!("sb{i}"))] }),
+                        _ => {}
+                    }
                 }
                 Open::Filter => into.push(Stmt::FilterSection { filter: Filter::Upper, body }),
             }
